@@ -208,6 +208,27 @@ CLAIMED = {
 NOT_YET = "check not built yet in this round (planned, see DESIGN.md §8/§13); no claim is made"
 
 
+# sequence / variant cases added after the third and fourth round of independent seeded changes (DESIGN §14)
+SESSION3 = {
+    "C01": " Also every run: a strongly correlated far-bath design (km-scale fibre, short baths a few kelvin apart); every named output against p_val / diag p_cov at the documented positions.",
+    "C02": " Also every run: named outputs (incl. talpha_fw/bw and their full versions) against p_val / diag p_cov; the executable scatter model against the tagged run.",
+    "C03": " Also every run: one Dataset object calibrated, given a second model-consistent campaign in place, and calibrated again (found the stale-accessor defect, fix 6c1939c).",
+    "C04": " Also every run: tagged layouts with the splices listed in descending / rotated order.",
+    "C05": " Also every run: a second calibration of the same dataset with other noise variances.",
+    "C07": " Also every run: the executable scatter model against the Spec's list of free parameters.",
+    "C08": " Also every run: convergence with fixed parameters that carry a (dominating) variance.",
+    "C09": " Also every run: index selections spelled from the end / as ndarray / as range, unsorted selections on the kept dimension, finiteness of every averaged output.",
+    "C10": " Also every run: residual placement on dask-backed Stokes.",
+    "C12": " Also every run: folders with the same relative path read from other working directories and re-read after their files were replaced.",
+    "C13": " Also every run: two passes with different variance arrays on one lazy dataset.",
+    "C14": " Also every run: four-channel datasets with time-only coordinates (identity at i = 0).",
+    "C15": " Also every run: repeated merges of the same channel datasets; inputs must come back unchanged.",
+    "C17": " Also every run: definitions asked again after the caller edited the returned objects.",
+    "C19": " Also every run: mixed (x,time)/(time,x) layouts, also with scalar variances.",
+    "C20": " Also every run: requests repeated after the caller edited the returned arrays (same and fresh dataset).",
+}
+
+
 def main():
     checks = []
     for pid, (tech, text, note, ref) in sorted(CLAIMED.items()):
@@ -218,7 +239,7 @@ def main():
             evidence_file=f"/verif/evidence/{pid}.json",
             replay_cmd_template=f"/venv/bin/python harness/vcheck.py {pid} --replay {{path}}",
             engine="lean4-model+correspondence",
-            level_claimed=dict(category="proof", text=text, design_ref=ref),
+            level_claimed=dict(category="proof", text=text + SESSION3.get(pid, ""), design_ref=ref),
             level_note=note,
             technique=tech,
         ))
